@@ -248,3 +248,13 @@ package layout
 //@   ensures conserved: wsum(regular, len(regular)) + wsum(spanning, len(spanning)) == wsum(fragments, len(fragments))
 //@   loop 1:
 //@     invariant wsum(regular, len(regular)) + wsum(spanning, len(spanning)) == lsum(lines, $i)
+
+//@ func (*ColumnDetector) singleColumnLayout results (res)
+//@   property C09
+//@   ensures conserved: !isnil(res) && colsum(res.Columns, len(res.Columns)) == wsum(fragments, len(fragments)) && len(res.SpanningFragments) == 0
+
+//@ func (*ColumnLayout) GetFragmentsInReadingOrder results (res)
+//@   property C09
+//@   ensures conserved: !isnil(l) ==> wsum(res, len(res)) == colsum(l.Columns, len(l.Columns))
+//@   loop 0:
+//@     invariant wsum(result, len(result)) == colsum(l.Columns, $i)
